@@ -124,7 +124,8 @@ def execute(histories, tags, cids, nproc=None, chunk=25):
 # --------------------------------------------------------------------------
 def random_history(rng, length, weights=None):
     w = dict(apply=3, fit=5, set=4, rate=1, scan=.3, getinit=1,
-             mutate_pi=1, mutate_pl=1, unknown=.4, orphan=.4, alias_pl=.5)
+             mutate_pi=1, mutate_pl=1, unknown=.4, orphan=.4, alias_pl=.5,
+             around=.2)
     if weights:
         w.update(weights)
     kinds, ws = zip(*w.items())
@@ -166,6 +167,10 @@ def random_history(rng, length, weights=None):
         elif kind == "rate":
             hist.append({"op": "rate", "rater": rng.choice(raters),
                          "copyargs": rng.random() < .5})
+        elif kind == "around":
+            hist.append({"op": rng.choice(["rate_fault", "get_rater_kw"]),
+                         "rater": rng.choice([r for r in raters
+                                              if "none" not in r.lower()])})
         elif kind == "scan":
             hist.append({"op": "scan"})
         elif kind == "getinit":
@@ -283,8 +288,8 @@ def signature(op):
     if k == "set":
         return f"set({op['key']}={op['val']}" + \
             (",obj)" if op.get("via") == "obj" else ")")
-    if k == "rate":
-        return f"rate({op['rater']})"
+    if k in ("rate", "rate_fault", "get_rater_kw"):
+        return f"{k}({op['rater']})"
     if k in ("mutate_pl", "mutate_attr"):
         return f"{k}({op['pipe']})"
     if k == "mutate_pi":
